@@ -8,6 +8,7 @@ import Complgen.Proofs.Passes
 import Complgen.Proofs.Choice
 import Complgen.Proofs.Meaning
 import Complgen.Proofs.SpecAuto
+import Complgen.Proofs.EndToEnd
 namespace Complgen.Props.C02
 open Complgen
 
@@ -152,5 +153,20 @@ theorem oracle_has_theorem_semantics (g : Grammar) (sh : Shell) (hn : Spec.NoEmp
       ∃ ps, (Spec.meaning g sh).denPos 0 ps ∧
         ps.map (Spec.keyAt (Spec.leafKeys Spec.wordKey (Spec.meaning g sh)) 0) = kw :=
   Spec.specAuto_correct g sh hn hfin kw
+
+/-- **The pipeline recognises the grammar's meaning** (`C02_end_to_end` with its side conditions
+discharged, `Proofs/EndToEnd.lean`): whenever the model of the whole pipeline (validate ▸ regex ▸
+ambiguity checks ▸ symbols and within-word automata ▸ subset construction ▸ minimisation) produces a
+result, the raw *and the minimised* main automaton accept exactly the label sequences of the words
+of `Spec.meaningAt g sh`, the label of position `p` being the symbol the pipeline computed for it. -/
+theorem pipeline_recognises_meaning (σ : Schedule) (g : Grammar) (sh : Shell) (c : Pipeline.Compiled)
+    (h : Pipeline.compile σ g sh = .ok c) :
+    ∃ syms, Pipeline.symbolsOf σ c.pool c.regex.inputs = .ok (syms, c.raw.subs) ∧
+      ∀ w : List Inp,
+        (c.raw.main.acceptsInp w = true ↔
+          ∃ ps, (Spec.meaningAt (Check.topSpan g) g sh).denPos 0 ps ∧
+            ps.map (fun p => syms[p]?) = w.map some) ∧
+        c.min.main.acceptsInp w = c.raw.main.acceptsInp w :=
+  Pipeline.compile_meaning σ g sh c h
 
 end Complgen.Props.C02
